@@ -621,38 +621,60 @@ theorem load_after_writeOps (d : Disk) (s : Snapshot) (bytes : Bytes) (hw : WfSn
   have hdec : decodeSnapshot bytes = .ok s := by simpa using rt_snapshot s bytes [] hb hw
   simp [writeOps, runOps, applyOp, Disk.set, Disk.get, load, hdec]
 
-/-- The file holds the snapshot the manager remembers as `last_snapshot`. -/
-def Mgr.Consistent (m : Mgr) : Prop := ∀ l, m.last = some l → load m.disk = .ok l
+/-- The file holds the encoded image of the snapshot the manager remembers as `last_snapshot`,
+and that is what the next load returns. -/
+def Mgr.Consistent (m : Mgr) : Prop :=
+  ∀ l, m.last = some l →
+    (∃ bytes, encodeSnapshot l = .ok bytes ∧ m.disk.main = some bytes) ∧ load m.disk = .ok l
+
+theorem main_after_writeOps (d : Disk) (bytes : Bytes) :
+    (runOps d (writeOps bytes) (writeOps bytes).length).main = some bytes := by
+  simp [writeOps, runOps, applyOp, Disk.set, Disk.get]
+
+theorem Mgr.saveIf_consistent (u : Bool) (m : Mgr) (s : Snapshot) (hc : m.Consistent)
+    (hw : WfSnapshot s) : (Mgr.saveIf u m s).1.Consistent := by
+  unfold Mgr.saveIf
+  cases u with
+  | true => simp only [if_true]; exact hc
+  | false =>
+    cases hb : encodeSnapshot s with
+    | error e => simp only [Bool.false_eq_true, if_false]; exact hc
+    | ok bytes =>
+      simp only [Bool.false_eq_true, if_false]
+      intro l hl
+      simp only [Option.some.injEq] at hl
+      subst hl
+      exact ⟨⟨bytes, hb, main_after_writeOps m.disk bytes⟩, load_after_writeOps m.disk s bytes hw hb⟩
 
 theorem Mgr.save_consistent (m : Mgr) (s : Snapshot) (hc : m.Consistent) (hw : WfSnapshot s) :
-    (m.save s).1.Consistent := by
-  unfold Mgr.save
-  by_cases h : m.unchanged s = true
-  · simp only [h, if_true]; exact hc
-  · have h' : m.unchanged s = false := by simpa using h
-    cases hb : encodeSnapshot s with
-    | error e => simp only [h']; exact hc
-    | ok bytes =>
-      simp only [h']
-      intro l hl
-      simp only [Bool.false_eq_true, if_false, Option.some.injEq] at hl
-      subst hl
-      exact load_after_writeOps m.disk s bytes hw hb
+    (m.save s).1.Consistent :=
+  Mgr.saveIf_consistent _ m s hc hw
 
-theorem Mgr.save_result (m : Mgr) (s : Snapshot) (hw : WfSnapshot s) :
-    (m.save s).2 = .ok () ∧
-    ((m.save s).1.last = some s ∨
-      ∃ l, m.last = some l ∧ (m.save s).1.last = some l ∧ snapshotEq l s = true) := by
+/-- A skipped write: the file already holds the image of `s`, bit for bit. -/
+theorem Mgr.unchanged_file (m : Mgr) (s : Snapshot) (hc : m.Consistent) (hw : WfSnapshot s)
+    (h : m.unchanged s = true) : load m.disk = .ok s := by
   obtain ⟨bytes, hb⟩ := (encodeSnapshot_ok_iff s).mpr hw.2.2.2
-  unfold Mgr.save
+  unfold Mgr.unchanged at h
+  cases hl : m.last with
+  | none => simp [hl] at h
+  | some l =>
+    obtain ⟨⟨lb, hlb, hmain⟩, _⟩ := hc l hl
+    simp only [hl, sameRetainImage, hlb, hb, Except.toOption, Bool.and_eq_true, beq_iff_eq,
+      Option.some.injEq] at h
+    have hdec : decodeSnapshot bytes = .ok s := by simpa using rt_snapshot s bytes [] hb hw
+    simp [load, hmain, h.2, hdec]
+
+/-- `save_snapshot` with a retainable snapshot reports success and leaves the file holding it. -/
+theorem Mgr.save_result (m : Mgr) (s : Snapshot) (hc : m.Consistent) (hw : WfSnapshot s) :
+    (m.save s).2 = .ok () ∧ load (m.save s).1.disk = .ok s := by
+  obtain ⟨bytes, hb⟩ := (encodeSnapshot_ok_iff s).mpr hw.2.2.2
   by_cases h : m.unchanged s = true
-  · simp only [h, if_true, true_and]
-    right
-    unfold Mgr.unchanged at h
-    cases hl : m.last with
-    | none => simp [hl] at h
-    | some l => exact ⟨l, rfl, rfl, by simpa [hl] using h⟩
-  · simp [h, hb]
+  · have hf := Mgr.unchanged_file m s hc hw h
+    simp only [Mgr.save, Mgr.saveIf, h, if_true, true_and]
+    exact hf
+  · have h' : m.unchanged s = false := by simpa using h
+    simp only [Mgr.save, Mgr.saveIf, h', hb, Bool.false_eq_true, if_false, true_and]
+    exact load_after_writeOps m.disk s bytes hw hb
 
 /-! ## the association-list model is a legitimate `IndexMap`: `insert` keeps keys distinct -/
 
